@@ -378,7 +378,9 @@ class Resolved:
             base = self.types.get(t.get("extends")) if t.get("extends") \
                 else None
             kt = t.get("keytype") or (base.keytype if base else "basic-key")
-            dt = t.get("datatype") or (base.datatype if base else None)
+            dt = t.get("datatype") or (
+                None if t.get("raw_datatype") == "null"
+                else (base.datatype if base else None))
             children = []
             if base:
                 for c in base.children:
@@ -606,6 +608,10 @@ def random_model(rng, handlers=True, override_keytype=False):
             t["implements"] = rng.choice(abstracts)
         if rng.random() < 0.25:
             t["datatype"] = rng.choice(["wrap", "wrap2"])
+        elif base is not None and rng.random() < 0.2:
+            # an explicit 'null': the base's section datatype is not
+            # inherited then
+            t["raw_datatype"] = "null"
         res = Resolved(model)
         if base is None:
             if rng.random() < 0.3:
